@@ -116,6 +116,61 @@ CHECKS.update({
     ),
 })
 
+CHECKS.update({
+    "C07": (
+        "Hypothesis-generated isobar topologies (relabelled, renumbered, permuted, several per adapter) x generated"
+        " events; independent numpy boost-and-rotate reference + the library's own Dalitz closed form (differential)",
+        "For every registered topology the reference recomputes all invariant masses and helicity angles from the"
+        " four-momenta along the documented chain of frames; the lambdified adapter output (cse on/off) is compared as"
+        " unit vectors with condition-scaled tolerances, names defined by several topologies must agree, and in"
+        " three-body decays the polar angle is compared with formulate_scattering_angle. All topologies x final-state"
+        " permutations for n <= 4 are fixed cases.",
+        "Trusts vp/ref/frames.py and numpy. Which momentum an angle pair denotes is taken from the docstrings/doctests"
+        " (see ASSUMPTIONS in vp/checks/c07.py).",
+        "DESIGN.md §4 C07",
+    ),
+    "C09": (
+        "Hypothesis-generated K-matrix configurations x batches of real parameter points in 6 regimes; numpy"
+        " unitarity/symmetry invariants",
+        "Each case evaluates a formulated T-matrix (non-relativistic and relativistic, 1-3 channels, 1-4 poles, L 0-4,"
+        " three phase-space factors) on a batch of 64 (512) generated points incl. near-threshold, near-pole, wide-scale"
+        " and degenerate regimes and checks ||S^dagger S - 1|| and ||T - T^T|| with condition-scaled tolerances.",
+        "Trusts numpy linear algebra and the independent pole-parametrisation reference used only for the condition"
+        " estimate (vp/ref/kmat.py).",
+        "DESIGN.md §4 C09",
+    ),
+    "C10": (
+        "Hypothesis-generated P-vector/K-matrix configurations (9 phase-space-factor implementations incl. probes) x"
+        " point batches; algebraic residual with the library's own parametrisations, structural argument audit, 1x1"
+        " Breit-Wigner reduction",
+        "Residual of the defining matrix equations with K, P, rho built by the harness from the library's parametrization"
+        " methods; traversal of the unevaluated result for foreign phase-space factors / L / radius; numerical reduction"
+        " to relativistic_breit_wigner(_with_ff) for one channel and one pole; formulate() calls with opposite flags in"
+        " the same process exercise the functools caches.",
+        "3-channel RelativisticPVector is not generated (formulate() does not terminate in 25 min). Points on branch"
+        " cuts or beyond double resolution of Chew-Mandelstam are labelled, not asserted.",
+        "DESIGN.md §4 C10",
+    ),
+    "C14": (
+        "Hypothesis-generated instances of all 45 instantiable expression classes found by package introspection"
+        " (nested to depth 3) x substitution maps; metamorphic subs/doit commutation, equality/hash pairs, rebuild from"
+        " args, folded-vs-unfolded code generation",
+        "Classes are discovered at run time (new classes get a generic recipe); every law of the statement is an"
+        " executable oracle with structural comparison first and a numeric fallback at fixed points.",
+        "Trusts sympy's structural equality on library-free expressions and numpy. sympy's own failures on exotic"
+        " nestings are skipped and counted.",
+        "DESIGN.md §4 C14",
+    ),
+    "C15": (
+        "Hypothesis-generated expression instances (all classes, nested) and formulated models; pickle round trip"
+        " (protocols 2-5) in-process and in a fresh interpreter, compared by digest and numerically",
+        "Round-trip oracle: loaded == original in class, args, every dataclass field, srepr, hash and assumptions, and"
+        " bit-identical numeric evaluation; a long-lived helper interpreter per shard performs the cross-process load.",
+        "Trusts pickle and the digest function in vp/checks/c15.py.",
+        "DESIGN.md §4 C15",
+    ),
+})
+
 NOT_CLAIMED: dict[str, str] = {}
 DEFAULT_REASON = "check not built yet in this round (planned: DESIGN.md §4); no verdict is claimed"
 
